@@ -89,11 +89,12 @@ fn probe(pat: &str, name: &str, create: bool, survivor_ports: bool, survivor_wri
             }
         }
         _ => {
-            r.extend(v(&["port tr t rea", "read tr 0"]));
+            // values are written before they are read: what the victim managed to write is not part of the oracle
+            r.extend(v(&["port tr t rea"]));
             if survivor_ports && survivor_writer {
-                r.extend(v(&["write sw 0 500", "read sr 0", "read tr 0", "read tr 1"]));
+                r.extend(v(&["write sw 0 500", "write sw 1 501", "read sr 0", "read tr 0", "read tr 1"]));
             } else {
-                r.extend(v(&["port tw t wri", "write tw 0 500", "read tr 0", "read tr 1"]));
+                r.extend(v(&["port tw t wri", "write tw 0 500", "write tw 1 501", "read tr 0", "read tr 1"]));
                 if survivor_ports {
                     r.extend(v(&["read sr 0"]));
                 }
